@@ -35,8 +35,9 @@ func (p *Program) Describe() string {
 // history (plus final reads by the main thread) linearizable w.r.t. the map model.
 func LinScenario(p *Program) *mc.Scenario {
 	return &mc.Scenario{
-		Name:    p.Name,
-		Require: []vs.OpKind{vs.OpLoad},
+		Name:     p.Name,
+		Describe: p.Describe(),
+		Require:  []vs.OpKind{vs.OpLoad},
 		Build: func() *mc.Instance {
 			var opts []fox.GlobalOption
 			if p.Opts != nil {
